@@ -244,6 +244,20 @@ CLAIMS["C19"] = (
     "Trusted: numpy semantics of any/max/min/dot/norm; the parameter roles are frozen from the docstrings (table TRANS).",
     "DESIGN.md §4 C19")
 
+CLAIMS["C18"] = (
+    "counting obligations on the apportionment loop (start + trips == requested as polynomials, trips >= 0 from the guard); closed-interval / shared-slice / "
+    "monotone-counter rules on the binning loops; run-length-encoding shape of the bounds scan; slice coupling and definite initialisation of the four "
+    "block-value builders; value-numbered OHV / OPV reductions and factory wiring (ast)",
+    "Decides the structural clauses: every chromosome >= 1 block and exactly the requested total (ones(nchr) + (requested - nchr) unit increments, guarded); every "
+    "marker labelled (both membership bounds closed over linspace(first, last, blocks+1)), labels stored through the slice they were computed on, label counter "
+    "never reset (blocks within chromosomes, ordered); bounds are a run-length encoding (contiguous, covering); block value j,t = geno[:,:,st:sp].effects[st:sp,t] "
+    "with the same (st,sp) and the array zero-initialised (finite when an equal-width bin is empty); OHV = ploidy*max(phase,parent).sum(blocks) per chunk, "
+    "OPV = -ploidy*max(phase,selected).sum(blocks), ploidy = axis 0, factories hand the builders the right arguments and the same cross map to the problem. "
+    "Conservation and the doubled-haploid bound follow from these but are NOT decided as numerical facts; which bin a marker falls in (floating-point linspace) "
+    "is not decided.",
+    "Trusted: positions sorted within chromosome groups (is_grouped_vrnt guard), numpy linspace endpoints exact.",
+    "DESIGN.md §4 C18")
+
 NOT_YET = "rule set not built yet (build in progress; see DESIGN.md §8)"
 NA = {}
 
